@@ -1610,29 +1610,100 @@ def null_corpus():
 
 # ---------------------------------------------------------------------------- constants read from the source
 
-def regen_constants():
-    """core/conf/config.go, internal/encoding/encoding.go of the checked tree -> coq/gen/C17Consts.v:
-    the table extension -> loader of conf.Load, the struct tag key, and the Go number types that
-    toStringKeyMap turns into json.Number (values only; entries are sorted, so re-ordering the source
-    changes nothing).  GenProofs.v proves that the model's fmt_of_ext IS this table etc."""
-    src = open(os.path.join(vlib.REPO, "core/conf/config.go")).read()
-    m = re.search(r"loaders\s*=\s*map\[string\]func\(\[\]byte,\s*any\)\s*error\s*\{(.*?)\n\t\}", src, re.S)
+def strip_go_comments(src):
+    """Go source without // and /* */ comments (string, raw-string and rune literals are kept as they are)"""
+    out, i, n = [], 0, len(src)
+    while i < n:
+        c = src[i]
+        if c in "\"'`":
+            j = i + 1
+            while j < n and src[j] != c:
+                if src[j] == "\\" and c != "`":
+                    j += 1
+                j += 1
+            out.append(src[i:j + 1])
+            i = j + 1
+        elif src.startswith("//", i):
+            j = src.find("\n", i)
+            i = n if j < 0 else j
+        elif src.startswith("/*", i):
+            j = src.find("*/", i + 2)
+            out.append(" ")
+            i = n if j < 0 else j + 2
+        else:
+            out.append(c)
+            i += 1
+    return "".join(out)
+
+
+def go_package_source(rel):
+    """the non-test Go files of one package of the checked tree, comments removed, concatenated (a declaration may
+    move to another file of the package without changing anything)"""
+    d = os.path.join(vlib.REPO, rel)
+    parts = []
+    for fn in sorted(os.listdir(d)):
+        if fn.endswith(".go") and not fn.endswith("_test.go"):
+            parts.append(strip_go_comments(open(os.path.join(d, fn)).read()))
+    return "\n".join(parts)
+
+
+def go_func_body(src, name):
+    """the text between the braces of `func name(...) ... {` (brace matching outside literals)"""
+    m = re.search(r"\bfunc\s+%s\s*\(" % re.escape(name), src)
     if not m:
-        raise RuntimeError("C17 translator: the loaders table was not found in core/conf/config.go")
+        return None
+    i = src.find("{", m.end())
+    # the parameter / result lists of the functions read here contain no braces except `interface{}`
+    while i >= 0 and src[max(0, i - 9):i] == "interface":
+        i = src.find("{", i + 2)
+    if i < 0:
+        return None
+    depth, j, n = 0, i, len(src)
+    while j < n:
+        c = src[j]
+        if c in "\"'`":
+            k = j + 1
+            while k < n and src[k] != c:
+                if src[k] == "\\" and c != "`":
+                    k += 1
+                k += 1
+            j = k
+        elif c == "{":
+            depth += 1
+        elif c == "}":
+            depth -= 1
+            if depth == 0:
+                return src[i + 1:j]
+        j += 1
+    return None
+
+
+def regen_constants():
+    """core/conf and internal/encoding of the checked tree -> coq/gen/C17Consts.v: the table extension -> loader
+    of conf.Load, the struct tag key, and the Go number types that toStringKeyMap turns into json.Number (values
+    only; entries are sorted, so re-ordering the source changes nothing; comments, white space, `any` vs
+    `interface{}`, the file of the package a declaration sits in and the layout of the `case` list do not
+    matter).  GenProofs.v proves that the model's fmt_of_ext IS this table etc."""
+    src = go_package_source("core/conf")
+    m = re.search(r"\bloaders\s*=\s*map\s*\[\s*string\s*\]\s*func\s*\(\s*\[\s*\]\s*byte\s*,\s*(?:any|interface\s*\{\s*\})\s*\)\s*error\s*\{(.*?)\}", src, re.S)
+    if not m:
+        raise RuntimeError("C17 translator: the loaders table was not found in core/conf")
     loaders = sorted(re.findall(r'"([^"]*)"\s*:\s*(\w+)', m.group(1)))
     if not loaders:
         raise RuntimeError("C17 translator: the loaders table is empty")
-    m = re.search(r'\bjsonTagKey\s*=\s*"([^"]*)"', src)
+    m = re.search(r'\bjsonTagKey\s*(?:string\s*)?=\s*"([^"]*)"', src)
     if not m:
-        raise RuntimeError("C17 translator: jsonTagKey not found in core/conf/config.go")
+        raise RuntimeError("C17 translator: jsonTagKey not found in core/conf")
     tag = m.group(1)
-    esrc = open(os.path.join(vlib.REPO, "internal/encoding/encoding.go")).read()
-    m = re.search(r"\nfunc toStringKeyMap\(.*?\n}\n", esrc, re.S)
-    if not m:
-        raise RuntimeError("C17 translator: toStringKeyMap not found in internal/encoding/encoding.go")
+    esrc = go_package_source("internal/encoding")
+    body = go_func_body(esrc, "toStringKeyMap")
+    if body is None:
+        raise RuntimeError("C17 translator: toStringKeyMap not found in internal/encoding")
     kinds = []
-    for cm in re.finditer(r"\n\tcase ([^:]*):\n\t\treturn convertNumberToJsonNumber\(v\)", m.group(0)):
-        kinds += [x.strip() for x in cm.group(1).split(",")]
+    # clauses of the type switch: `case T1, T2, ...:` followed by the statements up to the next case / default
+    for cm in re.finditer(r"\bcase\b([^:]*):(.*?)(?=\bcase\b|\bdefault\b|\Z)", body, re.S):
+        if re.search(r"\bconvertNumberToJsonNumber\s*\(", cm.group(2)):
+            kinds += [x.strip() for x in cm.group(1).split(",") if x.strip()]
     kinds = sorted(set(kinds))
     text = "\n".join([
         "(* GENERATED by tools/props/c17.py from core/conf/config.go and internal/encoding/encoding.go of the",
